@@ -1,7 +1,7 @@
 """C01 — adjoint identity <A u, v> = <u, A^H v> for every operator, configuration, u, v."""
 import random
 
-from harness.core import zoo
+from harness.core import zoo, zoo_kernels
 from harness.core.runner import Outcome
 from harness.props import _ops
 
@@ -20,10 +20,42 @@ def generate(rng: random.Random, tier: str):
         m = n * 3 if kind in ('cartsamp', 'zeropad') else n
         for _ in range(m):
             cases.append(zoo.gen_config(kind, rng))
+    nk = 12 if tier == 'thorough' else 3
+    for kind in zoo_kernels.KERNEL_KINDS:
+        for _ in range(nk * (3 if kind == 'wavelet' else 1)):
+            cases.append(zoo_kernels.gen_config(kind, rng))
+    if tier == 'thorough':
+        for fam in zoo_kernels.WAVELETS_ORTHO + zoo_kernels.WAVELETS_BIORTHO:
+            for level in (1, 2):
+                cases.append({'kind': 'wavelet', 'wavelet': fam, 'domain': [8, 8], 'level': level, 'batch': 0, 'seed': level})
     return cases
 
 
+def run_kernel(cfg, drv) -> Outcome:
+    """operators around third-party kernels: the hypothesis 'the kernel pair is adjoint' of the wrapper theorems is evaluated on
+    the real operator by dense matrices (decides all u, v of this configuration)"""
+    import torch
+
+    op, dom, rng_shape, tol = zoo_kernels.build(cfg)
+    single = cfg['kind'] == 'sliceproj'  # the sparse projection matrix is float32
+    F = zoo_kernels.dense(op.forward, dom, single=single)
+    A = zoo_kernels.dense(op.adjoint, rng_shape, single=single)
+    scale = max(1.0, float(F.abs().max()))
+    dev = float((F.conj().T - A).abs().max()) / scale
+    viol = None
+    if not (dev <= tol):
+        i, j = ((F.conj().T - A).abs() == (F.conj().T - A).abs().max()).nonzero()[0].tolist()
+        fam = cfg.get('wavelet', '')
+        sub = ('biorthogonal' if fam in zoo_kernels.WAVELETS_BIORTHO else 'orthogonal') if cfg['kind'] == 'wavelet' else ''
+        viol = {'signature': f'adjoint:{cfg["kind"]}:{sub}',
+                'what': f'{cfg}: adjoint() is not the adjoint of forward(): max |<A e_j, e_i> - <e_j, A^H e_i>| = {dev * scale:.3e} at u = e_{i}, v = e_{j} (tolerance {tol})'}
+    return Outcome(key={k: v for k, v in cfg.items() if k != 'seed'}, viol=viol, branches=[f'kernel:{cfg["kind"]}:{cfg.get("wavelet", cfg.get("mode", ""))}'],
+                   sample={**cfg, 'matrix_shape': list(F.shape), 'adjoint_deviation': dev})
+
+
 def run(cfg, drv) -> Outcome:
+    if cfg['kind'] in zoo_kernels.KERNEL_KINDS:
+        return run_kernel(cfg, drv)
     built, F, A, Fm, Am, notes = _ops.matrices(cfg, drv)
     corr = _ops.correspondence(cfg, built, F, A, Fm, Am, notes)
     viol = _ops.adjoint_oracle(cfg, built, F, A)
